@@ -65,6 +65,7 @@ let bumpn k n = Hashtbl.replace stats k (n + try Hashtbl.find stats k with Not_f
 let smax k n = Hashtbl.replace stats k (max n (try Hashtbl.find stats k with Not_found -> 0))
 
 let big = 64   (* checkers / Floyd-Warshall only for n <= big *)
+let huge_n = 2100   (* beyond: native validation only *)
 
 let () =
   let cases = ref 0 and ops = ref 0 and nontrivial = Hashtbl.create 4096 in
@@ -99,7 +100,129 @@ let () =
         let opsig = Buffer.create 256 in
         let mism kind_ op fmt = Printf.ksprintf (fun s ->
           Printf.printf "MISMATCH line=%d op=%d kind=%s what=%s %d: %s%s: %s\n" !lineno !opno kind_ kind n !label op s) fmt in
+        (* graphs beyond [huge_n] vertices are validated natively (the unary-nat model would be too slow):
+           independent BFS for reachability and fewest-edges distances, native path / event / order checks *)
+        let hugeg = n > huge_n in
+        let nadj : int list array option ref = ref None in
+        let adjacency () = match !nadj with Some a -> a | None ->
+          let a = Array.make (max n 1) [] in
+          List.iter (fun (x, y, _) -> a.(x) <- y :: a.(x); if not directed then a.(y) <- x :: a.(y)) !native_edges;
+          nadj := Some a; a in
+        let is_edge x y = x >= 0 && x < n && y >= 0 && y < n && List.mem y (adjacency ()).(x) in
+        let bfs_cache = Hashtbl.create 4 in
+        let bfs s = match Hashtbl.find_opt bfs_cache s with Some d -> d | None ->
+          let a = adjacency () in
+          let d = Array.make (max n 1) (-1) in
+          if s >= 0 && s < n then begin
+            let q = Queue.create () in
+            d.(s) <- 0; Queue.add s q;
+            while not (Queue.is_empty q) do
+              let v = Queue.pop q in
+              List.iter (fun w -> if d.(w) < 0 then begin d.(w) <- d.(v) + 1; Queue.add w q end) a.(v)
+            done
+          end;
+          Hashtbl.replace bfs_cache s d; d in
+        let handle_huge toks op res =
+          let arg i = int_of_string toks.(i) in
+          let is_panic = String.length res >= 5 && String.sub res 0 5 = "PANIC" in
+          let add a b w =
+            if a >= 0 && a < n && b >= 0 && b < n then begin
+              incr nedges; native_edges := (a, b, w) :: !native_edges; Hashtbl.replace !native_set (a, b, w) () end in
+          let valid_path s v path sg =
+            let d = bfs s in
+            match path with
+            | [] -> Some "empty path"
+            | a :: _ ->
+              let rec chain = function x :: (y :: _ as t) -> is_edge x y && chain t | _ -> true in
+              if a <> s || List.nth path (List.length path - 1) <> v then Some "does not go from s to v"
+              else if not (chain path) then Some "uses a non-edge"
+              else if sg = "BFS" && List.length path - 1 <> d.(v) then
+                Some (Printf.sprintf "has %d edges, the minimum (independent BFS) is %d" (List.length path - 1) d.(v))
+              else None in
+          try (match toks.(0) with
+          | "E" -> add (arg 1) (arg 2) (if Array.length toks > 3 then arg 3 else 0); nadj := None; Hashtbl.reset bfs_cache;
+            if res <> "-" && res <> "?" then mism "api" op "AddEdge reported %s" res
+          | "NEW" ->
+            native_edges := []; native_set := Hashtbl.create 16; nedges := 0;
+            List.iter (fun (a, b, w) -> add a b w) (parse_new (if Array.length toks > 1 then toks.(1) else "_"));
+            nadj := None; Hashtbl.reset bfs_cache; bump "graphs_built_by_constructor"
+          | _ when res = "?" -> ()
+          | _ when is_panic || res = "HANG" -> mism "api" op "implementation %s" res
+          | "PLEN" ->
+            incr nqueries; bump ("q_PLEN_" ^ toks.(1));
+            let s = arg 2 in let d = bfs s in
+            let ls = Array.of_list (undotted res) in
+            if Array.length ls <> n then mism "api" op "wrong number of answers (%d)" (Array.length ls) else begin
+              let bad = ref (-1) in
+              Array.iteri (fun v l ->
+                if !bad < 0 then begin
+                  let ok = if toks.(1) = "BFS" then l = d.(v)
+                    else (l >= 0) = (d.(v) >= 0) && l >= d.(v) && l < n in
+                  if not ok then bad := v end) ls;
+              if !bad >= 0 then
+                mism "api" op "To(%d): path with %d edges (-1 = none), independent BFS says %s" !bad ls.(!bad)
+                  (if d.(!bad) < 0 then "unreachable" else Printf.sprintf "reachable, fewest edges %d" d.(!bad))
+            end;
+            Array.iter (fun x -> if x >= 0 then bump "targets_reachable" else bump "targets_unreachable") d
+          | "PATH" ->
+            incr nqueries; bump ("q_PATH_" ^ toks.(1));
+            let s = arg 2 and v = arg 3 in let d = bfs s in
+            if (res <> "-") <> (d.(v) >= 0) then
+              mism "api" op "implementation %s but v is %sreachable (independent BFS)" (if String.length res > 60 then String.sub res 0 60 ^ "..." else res) (if d.(v) < 0 then "un" else "")
+            else if res <> "-" then
+              (match valid_path s v (undotted res) toks.(1) with
+               | Some why -> mism "api" op "the returned path %s" why
+               | None -> ())
+          | "TRAV" ->
+            incr nqueries; bump ("q_TRAV_" ^ toks.(1));
+            let s = arg 2 in let d = bfs s in
+            let evs = if res = "_" then [] else split_on res "," in
+            let pre = ref [] and post = ref [] and nedge = ref 0 and badedge = ref false in
+            List.iter (fun t ->
+              let body = String.sub t 1 (String.length t - 1) in
+              match t.[0] with
+              | 'p' -> pre := int_of_string body :: !pre
+              | 'q' -> post := int_of_string body :: !post
+              | _ -> (match split_on body "." with
+                      | [a; b] -> incr nedge; if not (is_edge (int_of_string a) (int_of_string b)) then badedge := true
+                      | _ -> badedge := true)) evs;
+            let reach = List.filter (fun v -> d.(v) >= 0) (List.init n (fun v -> v)) in
+            if List.sort compare !pre <> reach || List.sort compare !post <> reach then
+              mism "api" op "visited %d (pre) / %d (post) vertices, %d are reachable (independent BFS)" (List.length !pre) (List.length !post) (List.length reach)
+            else if !badedge || !nedge <> max 0 (List.length reach - 1) then
+              mism "api" op "edge events are not a spanning tree of the reachable part"
+          | "ORD" ->
+            incr nqueries; bump ("q_ORD_" ^ toks.(1));
+            (match split_on res ";" with
+             | [pre; post; rpost; prank; qrank] ->
+               let pre = undotted pre and post = undotted post and rpost = undotted rpost in
+               let prank = Array.of_list (undotted prank) and qrank = Array.of_list (undotted qrank) in
+               let ok = is_perm n pre && is_perm n post && rpost = List.rev post
+                        && Array.length prank = n && Array.length qrank = n
+                        && List.for_all (fun x -> x) (List.mapi (fun i v -> prank.(v) = i) pre)
+                        && List.for_all (fun x -> x) (List.mapi (fun i v -> qrank.(v) = i) post) in
+               if not ok then mism "api" op "orders are not permutations with consistent ranks"
+             | _ -> mism "api" op "malformed answer")
+          | "CC" ->
+            incr nqueries; bump "q_CC";
+            (match split_on res ";" with
+             | [cnt; ids; _] ->
+               let ids = Array.of_list (undotted ids) in
+               let comp = Array.make (max n 1) (-1) and c = ref 0 in
+               for v = 0 to n - 1 do
+                 if comp.(v) < 0 then begin
+                   let d = bfs v in Hashtbl.remove bfs_cache v;
+                   Array.iteri (fun u x -> if x >= 0 && u < n then comp.(u) <- !c) d; incr c end
+               done;
+               if Array.length ids <> n || int_of_string cnt <> !c
+                  || canon (Array.to_list ids) <> canon (Array.to_list (Array.sub comp 0 n)) then
+                 mism "api" op "component ids/count differ from the independent component labelling (%d components)" !c
+             | _ -> mism "api" op "malformed answer")
+          | _ -> bump "ops_skipped_on_huge_graph")
+          with Failure _ | Invalid_argument _ | Not_found ->
+            mism "api" op "unparsable answer: %s" (if String.length res > 200 then String.sub res 0 200 else res) in
         let rec handle op res =
+          if hugeg then handle_huge (Array.of_list (List.filter (fun s -> s <> "") (split_on op " "))) op res else
           let toks = Array.of_list (List.filter (fun s -> s <> "") (split_on op " ")) in
           let arg i = int_of_string toks.(i) in
           (* a negative vertex is out of range exactly like a too large one *)
@@ -440,6 +563,7 @@ let () =
         if !parallel > 0 then bump "graphs_with_parallel_edges";
         if !zerow > 0 then bump "graphs_with_zero_weight_edges";
         if n >= 1020 then bump "graphs_across_block_size_1024";
+        if hugeg then bump "graphs_5000_to_9000_vertices_native_bfs";
         bumpn "edges" !nedges;
         bump (Printf.sprintf "n_%s" (if n <= 4 then string_of_int n else if n <= 12 then "5_12" else if n <= 40 then "13_40" else "big"));
         if !nedges >= 2 && !nqueries >= 1 then Hashtbl.replace nontrivial (Digest.string (head ^ Buffer.contents opsig)) ();
